@@ -169,7 +169,10 @@ fn format_full_scale(
     let rounder = NonDigitRoundingData::default_with_sign(this.sign);
 
     if this.scale <= 0 {
-        exp = (this.scale as i128).neg();
+        // zero has no digits to shift: never pad it with more zeros ("00")
+        if this.sign != Sign::NoSign {
+            exp = (this.scale as i128).neg();
+        }
         // format an integer value by adding trailing zeros to the right
         zero_right_pad_integer_ascii_digits(&mut digits, &mut exp, f.precision());
     } else {
